@@ -762,7 +762,6 @@ func DistinctBitmaps(r *rand.Rand, k, nDistinct, repeat int) KeySet {
 	return KeySet{Keys: uniqSorted(m), Class: fmt.Sprintf("distinct-bitmaps-k%d", k)}
 }
 
-
 // HugeTailSet: a few keys whose tails behind their last branching point are 64 KiB and longer (beyond every 16-bit
 // length field), next to ordinary keys; also a key that is a prefix of a huge one.
 func HugeTailSet(r *rand.Rand) KeySet {
@@ -833,4 +832,37 @@ func DirectoryThenTail(r *rand.Rand, below int) (KeySet, int) {
 		}
 	}
 	return KeySet{keys, "directory-then-tail"}, last
+}
+
+// GroupsOf64: groups of EXACTLY 64 (or 128) keys that share a long single-branch run below their group's first
+// byte, so that a group's key range ends on a key index that is a multiple of 64 (where a per-block summary of the
+// key list has its seams); the number of groups and the run length vary.
+func GroupsOf64(r *rand.Rand, run int) KeySet {
+	var keys []string
+	groups := 2 + r.Intn(3)
+	per := []int{64, 64, 128}[r.Intn(3)]
+	for g := 0; g < groups; g++ {
+		head := string([]byte{byte(0x41 + g)}) + strings.Repeat(string([]byte{byte(0x61 + g)}), run)
+		for i := 0; i < per; i++ {
+			keys = append(keys, head+fmt.Sprintf("%03d", i))
+		}
+	}
+	sort.Strings(keys)
+	return KeySet{keys, "groups-of-64"}
+}
+
+// WideThenThin: a root with many first bytes; the FIRST second-level node is wide too (11 or 12 next bytes), all the
+// others are thin (two branches whose bytes lie 128 apart and move through the 64-bit words of a 257-bit bitmap).
+func WideThenThin(r *rand.Rand, first int) KeySet {
+	m := map[string]struct{}{}
+	wide := 11 + r.Intn(2)
+	for j := 0; j < wide; j++ {
+		m[string([]byte{0x01, byte(3 + 7*j)})] = struct{}{}
+	}
+	for i := 1; i < first; i++ {
+		v := byte((62 - i) & 63)
+		m[string([]byte{byte(1 + i), v})] = struct{}{}
+		m[string([]byte{byte(1 + i), v + 128})] = struct{}{}
+	}
+	return KeySet{uniqSorted(m), "wide-then-thin"}
 }
